@@ -39,6 +39,11 @@ func (interp *Interpreter) gta(root *node, rpath, importPath, pkgName string) ([
 				return false // skip statement block if not the entry point
 			}
 
+		case ifStmt0, ifStmt1, ifStmt2, ifStmt3, forStmt0, forStmt1, forStmt2, forStmt3, forStmt4, forStmt5, forStmt6, forStmt7,
+			forRangeStmt, rangeStmt, switchStmt, switchIfStmt, typeSwitch, selectStmt:
+			// The variables declared by a compound statement (init statements included) are local to it.
+			return false
+
 		case defineStmt:
 			var (
 				atyp *itype
